@@ -522,12 +522,14 @@ func (s *Session) sendError(err error) (e error) {
 
 	se := stream.Error{}
 	if errors.As(err, &se) {
-		if _, e = se.WriteXML(s.out.e); e != nil {
-			return e
-		}
-		if e = s.closeSession(); e != nil {
-			return e
-		}
+		// The stream error is what ended the session and what the caller is
+		// told, whether or not it can still be put on the wire: a received error
+		// without a defined condition cannot be encoded again, and the peer that
+		// sent an error has usually gone away already.
+		/* #nosec */
+		se.WriteXML(s.out.e)
+		/* #nosec */
+		s.closeSession()
 		return err
 	}
 
